@@ -46,7 +46,11 @@ func (lt *LogType) UnmarshalJSON(data []byte) error {
 		return err
 	}
 
-	*lt = LogTypeFromString(s)
+	v, err := logTypeFromString(s)
+	if err != nil {
+		return err
+	}
+	*lt = v
 
 	return nil
 }
@@ -68,21 +72,30 @@ func (lt LogType) String() string {
 	panic("invalid log type")
 }
 
-func LogTypeFromString(logType string) LogType {
+func logTypeFromString(logType string) (LogType, error) {
 	switch logType {
 	case "SET_METADATA":
-		return SetMetadataLogType
+		return SetMetadataLogType, nil
 	case "NEW_TRANSACTION":
-		return NewTransactionLogType
+		return NewTransactionLogType, nil
 	case "REVERTED_TRANSACTION":
-		return RevertedTransactionLogType
+		return RevertedTransactionLogType, nil
 	case "DELETE_METADATA":
-		return DeleteMetadataLogType
+		return DeleteMetadataLogType, nil
 	case "INSERTED_SCHEMA":
-		return InsertedSchemaLogType
+		return InsertedSchemaLogType, nil
 	}
 
-	panic("invalid log type")
+	return 0, fmt.Errorf("invalid log type %q", logType)
+}
+
+func LogTypeFromString(logType string) LogType {
+	ret, err := logTypeFromString(logType)
+	if err != nil {
+		panic("invalid log type")
+	}
+
+	return ret
 }
 
 // Log represents atomic actions made on the ledger.
@@ -301,7 +314,7 @@ func (s *SavedMetadata) UnmarshalJSON(data []byte) error {
 	case strings.ToUpper(MetaTargetTypeTransaction):
 		id, err = strconv.ParseUint(string(x.TargetID), 10, 64)
 	default:
-		panic("unknown type")
+		return fmt.Errorf("unknown type '%s'", x.TargetType)
 	}
 	if err != nil {
 		return err
